@@ -549,6 +549,9 @@ def add_sum_n_weighted_bits_naive(
     :param basis: in which basis should generated function lie. Supported [XAIG, AIG].
     """
 
+    if isinstance(basis, str):
+        basis = GenerationBasis(basis.upper())
+
     res = []
     input_labels_with_pow = list(input_labels_with_pow)
     single = SortedList(input_labels_with_pow)  # sorted list of single
@@ -621,6 +624,9 @@ def add_sum_n_weighted_bits(
 
     :param basis: in which basis should generated function lie. Supported [XAIG, AIG].
     """
+
+    if isinstance(basis, str):
+        basis = GenerationBasis(basis.upper())
 
     res = []
 
